@@ -369,6 +369,8 @@ class WFSA:
             new.add_I(i, self.start[i] * V[i])
             new.add_F(i, V[i] ** (-1) * self.stop[i])
             for a, j, w in self.arcs(i):
+                if V[j] == self.R.zero:
+                    continue  # arc into a dead state: its pushed weight is zero
                 new.add_arc(i, a, j, V[i] ** (-1) * w * V[j])
         return new
 
